@@ -27,6 +27,7 @@ func init() {
 			Search{Sc: VSCRelay{Variant: "late", Epoch: 1, Delay: 1, Two: true}, Depth: d},
 		}
 		us = append(us, Search{Sc: VSCRelay{Variant: "batch", Epoch: 1, Delay: 1}, Depth: d + 3})
+		us = append(us, Search{Sc: VSCRelay{Variant: "expiry", Epoch: 1, Delay: 1}, Depth: d + 2})
 		if tier == "thorough" {
 			us = append(us, Search{Sc: VSCRelay{Variant: "open", Epoch: 3, Delay: 2}, Depth: d + 1})
 		}
@@ -43,7 +44,7 @@ func init() {
 			budget = 40 * time.Minute
 		}
 		return CheckSpec{Level: "model_checking", Rule: searchRule, Assumptions: xa, Budget: budget, Units: units(tier),
-			MustSee: []string{"vsc-packet-produced", "batched-delivery", "late-open", "packets-pending-after-block", "consumer-block-with-set:0", "consumer-block-with-set:2"}}
+			MustSee: []string{"vsc-packet-produced", "batched-delivery", "late-open", "packets-pending-after-block", "consumer-block-with-set:0", "consumer-block-with-set:2", "clients-expired"}}
 	})
 	register("C12", func(tier string) CheckSpec {
 		budget := 280 * time.Second
